@@ -100,7 +100,7 @@ class Cell(NullCell):
             #  cause we have max size in TvmBitarray
             result = self.bits.to_bitarray()
         else:
-            result = self.bits
+            result = self.bits.copy()
         if len(result) % 8:
             result.append(1)
             result.fill()
